@@ -312,9 +312,28 @@ fn run_worker(args: &[String]) {
                     inflight(&json!({"id": id}));
                     emit(class_stages(&id, &class), json!({"id": id, "kind": "class", "class_path": path}));
                     let n_mut = job.get("mutants").and_then(|x| x.as_u64()).unwrap_or(0) as usize;
-                    for k in 0..n_mut {
-                        let (mut felts, mut desc) = mutate_felts(&class.sierra_program, &mut rng);
-                        if k % 4 == 3 {
+                    // deterministic truncations at the boundaries of the container format: the version felts, the
+                    // code book (its size is the 7th felt), the padding / length felts that follow it, the end
+                    let total = class.sierra_program.len();
+                    let code_size = class.sierra_program.get(6).and_then(|f| usize::try_from(&f.value).ok()).unwrap_or(0);
+                    let mut cuts: Vec<usize> = (0..10).collect();
+                    for base in [7 + code_size, 8 + code_size] {
+                        for d in -2i64..=2 {
+                            cuts.push((base as i64 + d).max(0) as usize);
+                        }
+                    }
+                    cuts.extend([total.saturating_sub(1), total.saturating_sub(2)]);
+                    cuts.retain(|c| *c < total);
+                    cuts.sort();
+                    cuts.dedup();
+                    let n_cuts = if n_mut > 0 { cuts.len() } else { 0 };
+                    for k in 0..(n_cuts + n_mut) {
+                        let (mut felts, mut desc) = if k < n_cuts {
+                            (class.sierra_program[..cuts[k]].to_vec(), format!("truncate {} (boundary)", cuts[k]))
+                        } else {
+                            mutate_felts(&class.sierra_program, &mut rng)
+                        };
+                        if k >= n_cuts && k % 4 == 3 {
                             let (f2, d2) = mutate_felts(&felts, &mut rng);
                             felts = f2;
                             desc = format!("{desc}; {d2}");
